@@ -95,7 +95,10 @@ CLAIM = dict(
          "amount, both exact sums <= 21e14, outputs <= inputs, lock time <= 2^31-1, no coinbase reference, scripts pass) — in fact "
          "acceptance is characterised exactly (iff) —, validation never panics and both profiles agree on every input; every rejected "
          "case is an Err. Same three theorems for the two payload validators. MAX_SATOSHIS is regenerated from the tree and proved to "
-         "be 21e14. The model is tied to the code by a differential run over the i64 boundary pool.",
+         "be 21e14. The model is tied to the code by a differential run over the i64 boundary pool; the script clause is decided per input "
+         "by the two-phase script model under the rule set Tx::validate selects for THAT input (Genesis / pre-genesis mark), timelock "
+         "opcodes answered by the model of TransactionChecker::check_locktime/check_sequence (multi-input cases with per-input script "
+         "pairs, marks and sequence numbers).",
     note="Holds for the tree with the two proposed fixes (checked sums; duplicate-input rejection). On the pinned tree the property is "
          "false: witness theorems + corpus replays (i64::MAX + i64::MAX panics in dev / wraps to -2 and is accepted in release; one "
          "outpoint spent twice is accepted). Script evaluation is an oracle here.",
